@@ -189,6 +189,8 @@ CS_ABBR = {"gray8": "G", "rgb8": "RGB", "bit1": "G", "jpeg-gray": "G", "jpeg-rgb
 
 def image_dict(img: Dict[str, Any], inline: bool, abbreviate: bool = True) -> Dict[str, Any]:
     kind = img["kind"]
+    if kind == "other":
+        kind = "gray8"       # placeholder colour space / bits: overridden from img["cslist"], img["bits"]
     bpc = 1 if kind == "bit1" else 8
     fl = img.get("filters", [])
     if inline and abbreviate:
